@@ -21,7 +21,7 @@ DESIGN_REF = 'DESIGN.md section 5 / C11'
 TECHNIQUE = ('stateless exploration of the real synthetic_data under an owned random environment (choice/shuffle answers decided by the '
              'harness, iterative deviation bounding); explicit-joint oracle on the output and on the sampler arguments')
 RULE = ('case = (model, value class, total, rows, method, decision list); models: all 8 graphs on 3 attributes + 4-attribute chain and star; '
-        'value classes generic / zero cells / zero values; totals {1, 7.9, 1000.5}; rows {default,1,2,3,7,10,100,1000,10000} (+1e5,1e6 thorough); '
+        'value classes generic / zero cells / zero values / compensated (+-900 g(a) on two potentials sharing a); totals {1, 7.9, 1000.5}; rows {default,1,2,3,7,10,100,1000,10000} (+1e5,1e6 thorough); '
         'round mode: every decision point (support subset returned by choice(replace=False), shuffle permutation) deviated up to the bound; '
         'sample mode: the sampler is answered by the deterministic largest-remainder realisation of its own p. states = decision points '
         'reached, transitions = environment answers given. non-trivial = model with an edge and rows >= 2; distinct = digest of (case, decisions).')
